@@ -373,3 +373,77 @@ func (p *Prog) virtualInstrs(fn *ssa.Function, f func(in ssa.Instruction)) {
 	}
 	visit(fn, 0)
 }
+
+// throughTuple sees a component of a multi-result helper's result through the call: `n, name, err := rc.readCommand(c, buf)`
+// … name  →  the value the helper returns at that position on its (only) non-trivial return - the error returns hand
+// back nil/zero there. Parameters of the helper are bound to the call's arguments.
+func throughTuple(v ssa.Value) ssa.Value {
+	for i := 0; i < 3; i++ {
+		v = strip(v)
+		ex, ok := v.(*ssa.Extract)
+		if !ok || curProg == nil {
+			return v
+		}
+		call, ok := ex.Tuple.(*ssa.Call)
+		if !ok {
+			return v
+		}
+		h := call.Call.StaticCallee()
+		if h == nil || !curProg.isHelper(h) {
+			return v
+		}
+		var cand ssa.Value
+		for _, r := range returnsReachable(h) {
+			rs := results(r.(*ssa.Return))
+			if ex.Index >= len(rs) {
+				return v
+			}
+			rv := rs[ex.Index]
+			if cst, isC := rv.(*ssa.Const); isC && (cst.Value == nil || cst.Value.String() == "0" || cst.Value.String() == `""` || cst.Value.String() == "false") {
+				continue
+			}
+			if cand != nil && cand != rv {
+				return v
+			}
+			cand = rv
+		}
+		if cand == nil {
+			return v
+		}
+		bindCall(h, call.Call.Args)
+		v = cand
+	}
+	return v
+}
+
+// resolveParamRoots replaces roots that are parameters of a helper by the roots of what its call sites pass there.
+func (p *Prog) resolveParamRoots(roots []ssa.Value, depth int) []ssa.Value {
+	var out []ssa.Value
+	for _, r := range roots {
+		prm, ok := r.(*ssa.Parameter)
+		if !ok || depth > 2 || !p.isHelper(prm.Parent()) {
+			out = append(out, r)
+			continue
+		}
+		h := prm.Parent()
+		idx := -1
+		for i, q := range h.Params {
+			if q == prm {
+				idx = i
+			}
+		}
+		sites := p.helperSites(h)
+		if idx < 0 || len(sites) == 0 {
+			out = append(out, r)
+			continue
+		}
+		for _, s := range sites {
+			if s.Call == nil || idx >= len(s.Call.Args) {
+				out = append(out, r)
+				continue
+			}
+			out = append(out, p.resolveParamRoots(flowRoots(s.Call.Args[idx], nil), depth+1)...)
+		}
+	}
+	return out
+}
